@@ -565,7 +565,13 @@ func (m *Module) judge(w *engine.World, f *feed, pv *pendingValue, data string) 
 		// the shape of the stored value is judged
 		w.Hit("C17.format_only_checks")
 		if !dec8Re.MatchString(data) {
-			w.Violate("C17", "aggregate/"+pv.fn+"/non-numeric-response/format", "feed %s (%s of %q) batch %d stored %q, not a decimal with 8 fractional digits; valid responses: %s",
+			key := "aggregate/" + pv.fn + "/non-numeric-response/format"
+			if strings.Contains(data, "Inf") || strings.Contains(data, "NaN") {
+				// same family as the beyond-float64 finding: a literal outside the float64
+				// range among the responses
+				key = "aggregate/" + pv.fn + "/beyond-float64"
+			}
+			w.Violate("C17", key, "feed %s (%s of %q) batch %d stored %q, not a decimal with 8 fractional digits; valid responses: %s",
 				f.Name, pv.fn, f.Path, pv.batch, data, strings.Join(pv.outputs, " "))
 		}
 		return
